@@ -7,10 +7,11 @@
 From Coq Require Import List Arith ZArith Bool Lia.
 Import ListNotations.
 Require Import MD.Lib.Strided.
-Require MD.Cursor.Model.
-Require Import MD.Load.Model MD.Load.Lemmas MD.Load.Proofs.
+Require MD.Cursor.Model MD.Cursor.Extended.
+Require Import MD.Load.Model MD.Load.Lemmas MD.Load.Proofs MD.Load.Reflect MD.Load.ReflectProofs.
 
 Module C := MD.Cursor.Model.
+Module E := MD.Cursor.Extended.
 
 Definition of_res (s0 : st) (r : st * res nat) : st * C.out :=
   match r with (s', Ok l) => (s', C.Frames l) | (_, Raise) => (s0, C.Err) end.
@@ -73,25 +74,34 @@ Qed.
 Definition linked (fm : fam) : Prop :=
   match fm with FArr _ | FNc | FSeq | FXtc => True | _ => False end.
 
-(* one in-range operation from position p: the abstract cursor's output and its new position *)
+(* one operation of the EXTENDED range (over-reads and reads at the end of the file included) from position p:
+   the abstract cursor's output and its new position *)
 Lemma lstep_ok fm (f : list nat) s p o : linked fm -> at_pos s p -> p <= length f ->
-  C.in_range (length f) p o = true ->
+  E.ext_in_range (length f) p o = true ->
   exists s', lstep fm f s o = (s', C.spec_out f p o) /\ at_pos s' (C.spec_pos (length f) p o).
 Proof.
   intros Hfm [Hc Hp] Hle Hr. destruct s as [c q b]. cbn [cnt pos] in Hc, Hp. subst c q.
-  destruct o as [n| |k|d| |]; cbn [C.in_range C.spec_out C.spec_pos lstep] in *.
-  - (* read(n), 1 <= n, p + n <= T *)
-    apply andb_true_iff in Hr as [H1 H2]. apply Nat.leb_le in H1, H2.
+  destruct o as [n| |k|d| |]; cbn [E.ext_in_range C.spec_out C.spec_pos lstep] in *.
+  - (* read(n), 1 <= n, also past the end *)
+    apply Nat.leb_le in Hr.
     destruct fm as [bb| | | | | | | |bb|]; cbn in Hfm; try contradiction; cbn [rd].
     + unfold arr_read. cbn [pos offs].
-      replace (Nat.min (p + (if bb then n * 1 else n)) (length f)) with (p + n) by (destruct bb; lia).
-      replace (p + n - p) with n by lia. destruct n as [|n]; [lia|]. cbn [Nat.eqb of_res].
-      eexists. split; [unfold span; replace (p + S n - p) with (S n) by lia; now rewrite every_one, map_app_none|].
-      split; cbn [cnt pos]; lia.
-    + unfold nc_read. cbn [pos offs]. replace (length f <=? p) with false by (symmetry; apply Nat.leb_gt; lia).
-      replace (Nat.min (n * 1) (length f)) with n by lia. replace (Nat.min (p + n * 1) (length f)) with (p + n) by lia.
-      cbn [of_res]. eexists. split; [unfold span; replace (p + n - p) with n by lia; now rewrite every_one, map_app_none|].
-      split; cbn [cnt pos]; lia.
+      replace (Nat.min (p + (if bb then n * 1 else n)) (length f)) with (Nat.min (p + n) (length f)) by (destruct bb; f_equal; lia).
+      destruct (Nat.min (p + n) (length f) - p =? 0) eqn:E0.
+      * apply Nat.eqb_eq in E0. assert (p = length f) by lia. subst p. cbn [of_res].
+        rewrite skipn_all, firstn_nil. eexists. split; [reflexivity|]. split; cbn [cnt pos]; lia.
+      * cbn [of_res]. eexists. split; [unfold span; now rewrite every_one, map_app_none, E.firstn_rest|].
+        apply Nat.eqb_neq in E0. split; cbn [cnt pos]; lia.
+    + unfold nc_read. cbn [pos offs]. destruct (length f <=? p) eqn:E0.
+      * apply Nat.leb_le in E0. assert (p = length f) by lia. subst p. cbn [of_res].
+        rewrite skipn_all, firstn_nil. eexists. split; [reflexivity|]. split; cbn [cnt pos]; lia.
+      * apply Nat.leb_gt in E0. cbn [of_res].
+        assert (Hw : firstn (Nat.min (n * 1) (length f)) (skipn p f) = firstn n (skipn p f)).
+        { destruct (Nat.le_gt_cases n (length f)) as [Hn|Hn]; [f_equal; lia|].
+          rewrite !firstn_all2; try reflexivity; rewrite skipn_length; lia. }
+        eexists. split; [unfold span; replace (p + Nat.min (n * 1) (length f) - p) with (Nat.min (n * 1) (length f)) by lia;
+                         now rewrite every_one, map_app_none, Hw|].
+        split; cbn [cnt pos]; lia.
     + unfold seq_read. cbn [pos offs]. rewrite seq_loop_one by assumption. cbn [of_res].
       eexists. split; [reflexivity|]. split; cbn [cnt pos]; lia.
     + unfold xtc_read. cbn [cnt pos offs]. change (1 <? 1) with false. cbn [andb].
@@ -145,24 +155,76 @@ Proof.
   - eexists. split; [reflexivity|split; reflexivity].
 Qed.
 
-Lemma spec_pos_le' T p o : p <= T -> C.in_range T p o = true -> C.spec_pos T p o <= T.
+Theorem load_readers_refine_cursor_ext fm (f : list nat) : linked fm -> forall ops s p,
+  at_pos s p -> p <= length f -> E.all_ext_range (length f) p ops = true ->
+  lrun fm f s ops = C.spec_run f p ops.
 Proof.
-  intros Hp Hr. destruct o as [n| |k|d| |]; cbn [C.in_range C.spec_pos] in *.
-  - apply andb_true_iff in Hr as [_ H]. apply Nat.leb_le in H. lia.
-  - lia.
-  - apply Nat.ltb_lt in Hr. lia.
-  - apply andb_true_iff in Hr as [H1 H2]. apply Z.leb_le in H1. apply Z.ltb_lt in H2. lia.
-  - assumption.
-  - assumption.
+  intros Hfm. induction ops as [|o r IH]; intros s p Hs Hp Hr; [reflexivity|].
+  cbn [E.all_ext_range] in Hr. apply andb_true_iff in Hr as [Ho Hr].
+  destruct (lstep_ok fm f s p o Hfm Hs Hp Ho) as (s' & Es & Hs').
+  cbn [lrun C.spec_run]. rewrite Es. f_equal.
+  apply IH; [assumption|now apply E.spec_pos_le_ext|assumption].
 Qed.
 
 Theorem load_readers_refine_cursor fm (f : list nat) : linked fm -> forall ops s p,
   at_pos s p -> p <= length f -> C.all_in_range (length f) p ops = true ->
   lrun fm f s ops = C.spec_run f p ops.
 Proof.
-  intros Hfm. induction ops as [|o r IH]; intros s p Hs Hp Hr; [reflexivity|].
-  cbn [C.all_in_range] in Hr. apply andb_true_iff in Hr as [Ho Hr].
-  destruct (lstep_ok fm f s p o Hfm Hs Hp Ho) as (s' & E & Hs').
-  cbn [lrun C.spec_run]. rewrite E. f_equal.
-  apply IH; [assumption|now apply spec_pos_le'|assumption].
+  intros Hfm ops s p Hs Hp Hr. apply load_readers_refine_cursor_ext; try assumption. now apply E.all_in_range_ext.
+Qed.
+
+(* ================================================================== C18's per-run tie by translation.
+   A reader description extracted from the Python source (MD.Load.Reflect.rterm, regenerated on every run in
+   coq/Gen/LoadReaders.v) is assigned a cursor family of C18's FORMATS table; a description that gets one of the
+   conforming families refines the abstract cursor on every ext-range history. *)
+Definition cursor_family (r : rterm) : option nat :=
+  match classify r with
+  | Some (FArr true) => if r_tell_index r then Some 0 else None      (* arr  (h5)                 *)
+  | Some FNc => if r_tell_index r then Some 4 else None              (* nc_fix                    *)
+  | Some FSeq => if r_tell_index r then Some 1 else None             (* seq  (mdcrd, xyz, lammpstrj) *)
+  | Some FSeqNoSeek => Some 7                                        (* sequential reads, seek / tell refuse (arc) *)
+  | _ => None
+  end.
+
+Definition rstep (r : rterm) (f : list nat) (s : st) (o : C.op) : st * C.out :=
+  match o with
+  | C.Read n => of_res s (reader_sem r f s (Some n) 1 None)
+  | C.ReadAll => of_res s (reader_sem r f s None 1 None)
+  | C.Seek k => match reader_seek r f s k with Some s' => (s', C.Done) | None => (s, C.Err) end
+  | C.SeekRel d => if (Z.of_nat (cnt s) + d <? 0)%Z then (s, C.Err)
+                   else match reader_seek r f s (Z.to_nat (Z.of_nat (cnt s) + d)) with
+                        | Some s' => (s', C.Done) | None => (s, C.Err) end
+  | C.Tell => (s, if r_tell_index r then C.Pos (cnt s) else C.Err)
+  | C.Len => (s, C.Pos (length f))
+  end.
+
+Fixpoint rrun (r : rterm) (f : list nat) (s : st) (ops : list C.op) : list C.out :=
+  match ops with
+  | [] => []
+  | o :: t => let '(s', x) := rstep r f s o in x :: rrun r f s' t
+  end.
+
+Lemma cursor_family_conforming r v : cursor_family r = Some v -> v <> 7 ->
+  exists fm, classify r = Some fm /\ linked fm /\ r_tell_index r = true.
+Proof.
+  unfold cursor_family. intros H Hv.
+  destruct (classify r) as [[[|]| | | | | | | |b|]|] eqn:Ec; try discriminate;
+    try (destruct (r_tell_index r); [|discriminate]; eexists; repeat split; exact I).
+  inversion H. congruence.
+Qed.
+
+Theorem reflected_reader_refines_cursor r v (f : list nat) : cursor_family r = Some v -> v <> 7 ->
+  forall ops s p, at_pos s p -> p <= length f -> E.all_ext_range (length f) p ops = true ->
+  rrun r f s ops = C.spec_run f p ops.
+Proof.
+  intros Hv H7. destruct (cursor_family_conforming r v Hv H7) as (fm & Hc & Hl & Ht).
+  destruct (classify_sound 99 r fm Hc) as [Hrd Hsk].
+  induction ops as [|o t IH]; intros s p Hs Hp Hr; [reflexivity|].
+  cbn [E.all_ext_range] in Hr. apply andb_true_iff in Hr as [Ho Hr].
+  destruct (lstep_ok fm f s p o Hl Hs Hp Ho) as (s' & Es & Hs').
+  assert (Esame : rstep r f s o = lstep fm f s o).
+  { destruct Hs as [Hc1 Hp1]. assert (Hsy : cnt s = pos s) by congruence.
+    destruct o; cbn [rstep lstep]; rewrite ?Hrd by lia; rewrite ?Hsk by assumption; rewrite ?Ht; reflexivity. }
+  cbn [rrun C.spec_run]. rewrite Esame, Es. f_equal.
+  apply IH; [assumption|now apply E.spec_pos_le_ext|assumption].
 Qed.
